@@ -669,65 +669,65 @@ func apiFunctions(c *load.Ctx) []*ssa.Function {
 // xfAssertions: panics with a non-error value that can reach a public method. Each asserts an
 // internal invariant; feasibility is not decided statically (stated limitation).
 var xfAssertions = map[string]string{
-	`errors.(*DocumentError).preparation|"The file is not specified"`:                                                       "Line/SourceSubString test e.file == nil before calling preparation, String tests it before rendering a position",
-	`errors.(Errorf).Error|"Unknown error code"`:                                                                            "discharged by ET-3: every declared code has a template",
-	`errors.(Errorf).Error|"Invalid error message: "+…`:                                                                     "discharged by ET-1: argument count equals verb count at every Format site",
-	`errors.(ErrorCode).Error|"Unknown error code"`:                                                                         "discharged by ET-3",
-	`errors.(ErrorCode).Error|"Not enough data to generate an error message from template: "+…`:                             "discharged by ET-2: bare codes have zero-verb templates",
-	`internal/ds.(*Stack[T]).Peek|"Reading from empty stack"`:                                                               "the scanners' push/pop pairing; unreachable in every explored scanner state (SX-crash)",
-	`internal/ds.(*Stack[T]).Get|"Reading a nonexistent element of the stack"`:                                              "guarded by the stack length at every call site; unreachable in every explored scanner state (SX-crash)",
-	`notations/jschema/internal/scanner.stateFoundObjectEnd|"Incorrect annotation begin in stack"`:                          "the annotation kind on the stack is one of the two tested; unreachable in the explored states (SX-crash)",
-	`notations/jschema/internal/scanner.finishShortcut|<computed message>`:                                                  "stack top is one of the shortcut kinds when a shortcut ends; unreachable in the explored states (SX-crash)",
-	`notations/jschema/internal/scanner.(*Scanner).shiftFound|"Empty set of found lexical event"`:                           "both call sites test len(s.finds) != 0 first",
-	`notations/jschema/internal/scanner.(*Scanner).processingFoundLexemeClosingTag|"Incorrect ending of the lexical event"`: "closing events are generated against the matching stack top; unreachable in the explored states (SX-crash)",
-	`notations/jschema/internal/schema/constraint.(Type).String|"Unknown constraint type"`:                                  "generated stringer default: values are declared constants",
-	`fs.normalizeFileContent|<computed message>`:                                                                            "the type switch covers the whole type set of the FileContent constraint",
-	`internal/json.(GuessData).LiteralJsonType|<computed message>`:                                                          "called on scanner-produced literal tokens under a CatchLexEventError handler; a value no predicate recognises comes back as a DocumentError there",
-	`formats/json.(*scanner).shiftFound|"Empty set of found lexical event"`:                                                 "both call sites test len(s.finds) != 0 first",
-	`formats/json.(*scanner).processFoundLexemeClosingTag|"Incorrect ending of the lexical event"`:                          "unreachable in every explored scanner state (SX-crash / SA-J)",
-	`notations/jschema/internal/schema.(ObjectNode).Key|<computed message>`:                                                 "called with the index of an existing child",
-	`notations/jschema/internal/scanner.(*Scanner).Length|"Method not allowed"`:                                             "Length is only called on a scanner built with ComputeLength (Schema.computeLen)",
+	`errors.(DocumentError).preparation|"The file is not specified"`:                                                       "Line/SourceSubString test e.file == nil before calling preparation, String tests it before rendering a position",
+	`errors.(Errorf).Error|"Unknown error code"`:                                                                           "discharged by ET-3: every declared code has a template",
+	`errors.(Errorf).Error|"Invalid error message: "+…`:                                                                    "discharged by ET-1: argument count equals verb count at every Format site",
+	`errors.(ErrorCode).Error|"Unknown error code"`:                                                                        "discharged by ET-3",
+	`errors.(ErrorCode).Error|"Not enough data to generate an error message from template: "+…`:                            "discharged by ET-2: bare codes have zero-verb templates",
+	`internal/ds.(Stack[T]).Peek|"Reading from empty stack"`:                                                               "the scanners' push/pop pairing; unreachable in every explored scanner state (SX-crash)",
+	`internal/ds.(Stack[T]).Get|"Reading a nonexistent element of the stack"`:                                              "guarded by the stack length at every call site; unreachable in every explored scanner state (SX-crash)",
+	`notations/jschema/internal/scanner.stateFoundObjectEnd|"Incorrect annotation begin in stack"`:                         "the annotation kind on the stack is one of the two tested; unreachable in the explored states (SX-crash)",
+	`notations/jschema/internal/scanner.finishShortcut|<computed message>`:                                                 "stack top is one of the shortcut kinds when a shortcut ends; unreachable in the explored states (SX-crash)",
+	`notations/jschema/internal/scanner.(Scanner).shiftFound|"Empty set of found lexical event"`:                           "both call sites test len(s.finds) != 0 first",
+	`notations/jschema/internal/scanner.(Scanner).processingFoundLexemeClosingTag|"Incorrect ending of the lexical event"`: "closing events are generated against the matching stack top; unreachable in the explored states (SX-crash)",
+	`notations/jschema/internal/schema/constraint.(Type).String|"Unknown constraint type"`:                                 "generated stringer default: values are declared constants",
+	`fs.normalizeFileContent|<computed message>`:                                                                           "the type switch covers the whole type set of the FileContent constraint",
+	`internal/json.(GuessData).LiteralJsonType|<computed message>`:                                                         "called on scanner-produced literal tokens under a CatchLexEventError handler; a value no predicate recognises comes back as a DocumentError there",
+	`formats/json.(scanner).shiftFound|"Empty set of found lexical event"`:                                                 "both call sites test len(s.finds) != 0 first",
+	`formats/json.(scanner).processFoundLexemeClosingTag|"Incorrect ending of the lexical event"`:                          "unreachable in every explored scanner state (SX-crash / SA-J)",
+	`notations/jschema/internal/schema.(ObjectNode).Key|<computed message>`:                                                "called with the index of an existing child",
+	`notations/jschema/internal/scanner.(Scanner).Length|"Method not allowed"`:                                             "Length is only called on a scanner built with ComputeLength (Schema.computeLen)",
 }
 
 // xfReturnReviewed: unpositioned panic values that the propagation (which is context-insensitive)
 // lets reach an API-level handler, but which cannot be raised on that path.
 var xfReturnReviewed = map[string]string{
-	"returned|notations/jschema.(*Schema).Validate|LibraryError|from=notations/jschema/internal/schema.(Schema).MustType#1":                       "validation runs only after Check succeeded, and the link checker has then verified that every referenced type exists",
-	"returned|notations/jschema.(*Schema).Validate|LibraryError|from=notations/jschema/internal/validator.newArrayValidator#1":                    "internal assertion: the validator constructor is chosen by a switch on the node's own type",
-	"returned|notations/jschema.(*Schema).Validate|LibraryError|from=notations/jschema/internal/validator.newLiteralValidator#1":                  "internal assertion: the validator constructor is chosen by a switch on the node's own type",
-	"returned|notations/jschema.(*Schema).Validate|LibraryError|from=notations/jschema/internal/validator.newObjectValidator#1":                   "internal assertion: the validator constructor is chosen by a switch on the node's own type",
-	"returned|notations/jschema.(*Schema).compile$1|LibraryError|from=notations/jschema/internal/schema.(Schema).MustType#1":                      "outside extendWith (which converts it) processType is only called with names ranged from the type table itself",
-	"returned|notations/jschema.(*Schema).compile$1|LibraryError|from=notations/jschema/internal/loader.(*allOfConstraintCompiler).processType#1": "the recursion panic needs a type already in progress, which can only happen below extendWith, whose handler positions it",
-	"returned|notations/jschema.(*Schema).load$1|ForeignError|from=notations/jschema.(*Schema).buildASTNode#1":                                    "Node.ASTNode implementations only pass on errors of their children; the leaves never return one",
-	"returned|notations/jschema.(*Schema).load$1|ForeignError|from=notations/jschema/internal/schema.collectASTRules#1":                           "the or constraint is always added together with its types list (ruleLoader and addORShortcut)",
-	"returned|notations/jschema.(*Schema).load$1|LibraryError|from=notations/jschema/internal/loader.(*loader).doLoad#1":                          "handleLex returns an error only from addShortcutConstraint for a lexeme that is not TypesShortcutEnd, and it is called for exactly that lexeme",
-	"returned|notations/jschema.(*Schema).load$1|LibraryError|from=notations/jschema/internal/schema.(*MixedValueNode).addTypeConstraint#1":       "outside the rule loader (whose handler positions it) a type constraint is added only by a shortcut to its freshly created node",
-	"returned|notations/jschema.(*Schema).load$1|LibraryError|from=notations/jschema/internal/schema.(*Schema).addType#1":                         "outside handlers only AddUnnamedType reaches it, with a name made from the new object's address",
-	"returned|notations/jschema.(*Schema).load$1|LibraryError|from=notations/jschema/internal/schema.(*baseNode).AddConstraint#1":                 "outside the rule loader (whose handler positions it) constraints are added only by a shortcut to its freshly created node",
+	"returned|notations/jschema.(Schema).Validate|LibraryError|from=notations/jschema/internal/schema.(Schema).MustType#1":                      "validation runs only after Check succeeded, and the link checker has then verified that every referenced type exists",
+	"returned|notations/jschema.(Schema).Validate|LibraryError|from=notations/jschema/internal/validator.newArrayValidator#1":                   "internal assertion: the validator constructor is chosen by a switch on the node's own type",
+	"returned|notations/jschema.(Schema).Validate|LibraryError|from=notations/jschema/internal/validator.newLiteralValidator#1":                 "internal assertion: the validator constructor is chosen by a switch on the node's own type",
+	"returned|notations/jschema.(Schema).Validate|LibraryError|from=notations/jschema/internal/validator.newObjectValidator#1":                  "internal assertion: the validator constructor is chosen by a switch on the node's own type",
+	"returned|notations/jschema.(Schema).compile$1|LibraryError|from=notations/jschema/internal/schema.(Schema).MustType#1":                     "outside extendWith (which converts it) processType is only called with names ranged from the type table itself",
+	"returned|notations/jschema.(Schema).compile$1|LibraryError|from=notations/jschema/internal/loader.(allOfConstraintCompiler).processType#1": "the recursion panic needs a type already in progress, which can only happen below extendWith, whose handler positions it",
+	"returned|notations/jschema.(Schema).load$1|ForeignError|from=notations/jschema.(Schema).buildASTNode#1":                                    "Node.ASTNode implementations only pass on errors of their children; the leaves never return one",
+	"returned|notations/jschema.(Schema).load$1|ForeignError|from=notations/jschema/internal/schema.collectASTRules#1":                          "the or constraint is always added together with its types list (ruleLoader and addORShortcut)",
+	"returned|notations/jschema.(Schema).load$1|LibraryError|from=notations/jschema/internal/loader.(loader).doLoad#1":                          "handleLex returns an error only from addShortcutConstraint for a lexeme that is not TypesShortcutEnd, and it is called for exactly that lexeme",
+	"returned|notations/jschema.(Schema).load$1|LibraryError|from=notations/jschema/internal/schema.(MixedValueNode).addTypeConstraint#1":       "outside the rule loader (whose handler positions it) a type constraint is added only by a shortcut to its freshly created node",
+	"returned|notations/jschema.(Schema).load$1|LibraryError|from=notations/jschema/internal/schema.(Schema).addType#1":                         "outside handlers only AddUnnamedType reaches it, with a name made from the new object's address",
+	"returned|notations/jschema.(Schema).load$1|LibraryError|from=notations/jschema/internal/schema.(baseNode).AddConstraint#1":                 "outside the rule loader (whose handler positions it) constraints are added only by a shortcut to its freshly created node",
 }
 
 // xfRuntimeReviewed: index/slice operations that can reach a public function without a handler and
 // are in range for a reason the guard recogniser does not see.
 var xfRuntimeReviewed = map[string]string{
-	"errors.(DocumentError).lineBeginning|slice index Content()[·]":                                   "i starts at e.index, which preparation() keeps below the content length (LB-render), and only decreases down to 0",
-	"errors.(DocumentError).lineEnd|slice index Content()[·]":                                         "content[i] is guarded by i < e.length, e.length being len(content) set by preparation(); content[i-1] is read under i > 0, with i <= e.length",
-	"errors.(*DocumentError).Line|slice index Content()[·]":                                           "i starts at e.index < len(content) after preparation() (LB-render; empty content returns earlier) and only decreases down to 0",
-	"errors.(*DocumentError).SourceSubString|slice expression Content()[lineBeginning():·]":           "the upper bound is begin+maxLength-3, taken only when end-begin > maxLength, so begin <= bound < end <= len(content)",
-	"errors.(*DocumentError).SourceSubString|slice expression Content()[lineBeginning():lineEnd()]":   "begin <= end <= len(content): both come from lineBeginning/lineEnd of the same prepared error",
-	"errors.(*DocumentError).pointerToTheErrorCharacter|slice expression Content()[lineBeginning():]": "begin <= e.index < len(content)",
-	"bytes.(Bytes).TrimSpacesFromLeft|slice expression ·[·:]":                                         "slices at the index of a range loop over the same slice",
-	"<root>.(*ASTNodes).delete|slice expression .order[:·]":                                           "the bound is the index of an element of m.order found by the search loop just before",
-	"<root>.(*ASTNodes).delete|slice expression .order[·:]":                                           "index+1 <= len(m.order) for the index of an element of m.order",
-	"<root>.(*RuleASTNodes).delete|slice expression .order[:·]":                                       "the bound is the index of an element of m.order found by the search loop just before",
-	"<root>.(*RuleASTNodes).delete|slice expression .order[·:]":                                       "index+1 <= len(m.order) for the index of an element of m.order",
-	"internal/json.(*scanner).setExp|slice expression ·[.expBegin:]":                                  "expBegin is the index of a byte of value that was scanned",
-	"internal/json.(*Number).trimTrailingZerosInTheFractionalPart|slice index .nat[·]":                "the loop runs while exp != 0 and exp <= len(nat) was checked on entry; each step removes one byte and one unit of exp",
-	"internal/json.(*Number).trimTrailingZerosInTheFractionalPart|slice expression .nat[:·]":          "same invariant: len(nat) >= exp > 0",
-	"internal/json.(*Number).trimLeadingZerosInTheIntegerPart|slice index .nat[0]":                    "the loop runs intLen = len(nat)-exp times at most, removing one byte each time",
-	"internal/json.(*Number).trimLeadingZerosInTheIntegerPart|slice expression .nat[1:]":              "same invariant",
-	"bytes.(Bytes).ParseInt|slice index ·[0]":                                                         "reached from the public GuessSchemaType only through the numeral scanner's setExp, with the non-empty exponent text",
-	"bytes.(Bytes).ParseInt|slice expression ·[1:]":                                                   "same: b is non-empty",
-	"<root>.(*typeGuesser).isString|slice index .data[·]":                                             "under length >= 2 in the same condition",
+	"errors.(DocumentError).lineBeginning|slice index Content()[·]":                                  "i starts at e.index, which preparation() keeps below the content length (LB-render), and only decreases down to 0",
+	"errors.(DocumentError).lineEnd|slice index Content()[·]":                                        "content[i] is guarded by i < e.length, e.length being len(content) set by preparation(); content[i-1] is read under i > 0, with i <= e.length",
+	"errors.(DocumentError).Line|slice index Content()[·]":                                           "i starts at e.index < len(content) after preparation() (LB-render; empty content returns earlier) and only decreases down to 0",
+	"errors.(DocumentError).SourceSubString|slice expression Content()[lineBeginning():·]":           "the upper bound is begin+maxLength-3, taken only when end-begin > maxLength, so begin <= bound < end <= len(content)",
+	"errors.(DocumentError).SourceSubString|slice expression Content()[lineBeginning():lineEnd()]":   "begin <= end <= len(content): both come from lineBeginning/lineEnd of the same prepared error",
+	"errors.(DocumentError).pointerToTheErrorCharacter|slice expression Content()[lineBeginning():]": "begin <= e.index < len(content)",
+	"bytes.(Bytes).TrimSpacesFromLeft|slice expression ·[·:]":                                        "slices at the index of a range loop over the same slice",
+	"<root>.(ASTNodes).delete|slice expression .order[:·]":                                           "the bound is the index of an element of m.order found by the search loop just before",
+	"<root>.(ASTNodes).delete|slice expression .order[·:]":                                           "index+1 <= len(m.order) for the index of an element of m.order",
+	"<root>.(RuleASTNodes).delete|slice expression .order[:·]":                                       "the bound is the index of an element of m.order found by the search loop just before",
+	"<root>.(RuleASTNodes).delete|slice expression .order[·:]":                                       "index+1 <= len(m.order) for the index of an element of m.order",
+	"internal/json.(scanner).setExp|slice expression ·[.expBegin:]":                                  "expBegin is the index of a byte of value that was scanned",
+	"internal/json.(Number).trimTrailingZerosInTheFractionalPart|slice index .nat[·]":                "the loop runs while exp != 0 and exp <= len(nat) was checked on entry; each step removes one byte and one unit of exp",
+	"internal/json.(Number).trimTrailingZerosInTheFractionalPart|slice expression .nat[:·]":          "same invariant: len(nat) >= exp > 0",
+	"internal/json.(Number).trimLeadingZerosInTheIntegerPart|slice index .nat[0]":                    "the loop runs intLen = len(nat)-exp times at most, removing one byte each time",
+	"internal/json.(Number).trimLeadingZerosInTheIntegerPart|slice expression .nat[1:]":              "same invariant",
+	"bytes.(Bytes).ParseInt|slice index ·[0]":                                                        "reached from the public GuessSchemaType only through the numeral scanner's setExp, with the non-empty exponent text",
+	"bytes.(Bytes).ParseInt|slice expression ·[1:]":                                                  "same: b is non-empty",
+	"<root>.(typeGuesser).isString|slice index .data[·]":                                             "under length >= 2 in the same condition",
 }
 
 func runXF1(c *load.Ctx, r *report.RuleResult) { runXFescape(c, r, nil) }
@@ -1030,10 +1030,10 @@ var xfLibReturnReviewed = map[string]string{
 	"libreturn|notations/jschema/internal/checker.(checkSchema).checkCompatibilityOfConstraints$1#1": "the enclosing function panics the value and checkNode's CatchLexEventError handler positions it",
 	"libreturn|notations/jschema/internal/checker.newNodeChecker#1":                                  "ErrImpossible for a node type that does not exist; the caller panics it under checkNode's handler",
 	"libreturn|notations/jschema/internal/loader.addShortcutConstraint#1":                            "ErrLoader for a lexeme that is not TypesShortcutEnd; the function is called for exactly that lexeme",
-	"libreturn|notations/jschema/internal/checker.(*recursionChecker).check#1":                       "ErrImpossible for a node type that does not exist",
-	"libreturn|notations/jschema.(*exampleBuilder).buildObjectKey#1":                                 "unknown key-shortcut type: Example compiles (and so link-checks) the schema first, so the type exists",
-	"libreturn|notations/jschema.(*exampleBuilder).buildExampleForMixedValueNode#1":                  "ErrLoader for a shortcut node without type names: the loader always records at least one",
-	"libreturn|notations/jschema.(*exampleBuilder).buildExampleForMixedValueNode#2":                  "unknown type: excluded by the link check that Example's compile performs first",
+	"libreturn|notations/jschema/internal/checker.(recursionChecker).check#1":                        "ErrImpossible for a node type that does not exist",
+	"libreturn|notations/jschema.(exampleBuilder).buildObjectKey#1":                                  "unknown key-shortcut type: Example compiles (and so link-checks) the schema first, so the type exists",
+	"libreturn|notations/jschema.(exampleBuilder).buildExampleForMixedValueNode#1":                   "ErrLoader for a shortcut node without type names: the loader always records at least one",
+	"libreturn|notations/jschema.(exampleBuilder).buildExampleForMixedValueNode#2":                   "unknown type: excluded by the link check that Example's compile performs first",
 }
 
 func runXF3(c *load.Ctx, r *report.RuleResult) {
